@@ -111,7 +111,7 @@ Qed.
 (* lock / unlock counting: only the outermost unlock flushes *)
 Theorem nested_unlock_does_not_flush s n :
   lockc s = S (S n) -> step s OUnlock = Ok (set_lock s (S n), RBool false).
-Proof. intros H. simpl. rewrite H. reflexivity. Qed.
+Proof. intros H. simpl. unfold do_unlock. simpl. rewrite H. reflexivity. Qed.
 
 (* ------------------------------------------------------------------------------------------ *)
 (* C09: checked entry points through a handle that is not valid do nothing                      *)
